@@ -50,10 +50,29 @@ def theorem_table():
     return "\n".join(rows)
 
 
+def fixed_table():
+    k = json.load(open(os.path.join(V, "known_findings.json")))
+    rows = ["| property | `fix:` commit in /repo | what failed before the repair |", "|---|---|---|"]
+    for line in k["fixed"]:
+        m = re.match(r"fixed: property=(\S+) (\S+) (.*)", line, re.S)
+        if m:
+            rows.append("| %s | `%s` | %s |" % (m.group(1), m.group(2), re.sub(r"\s+", " ", m.group(3)).replace("|", "/")))
+    return "\n".join(rows)
+
+
+def known_table():
+    k = json.load(open(os.path.join(V, "known_findings.json")))
+    rows = ["| property | id | signature the check matches | what fails (why it is recorded rather than repaired) |", "|---|---|---|---|"]
+    for f in sorted(k["findings"], key=lambda f: (f["property"], str(f.get("id")), f["signature"])):
+        rows.append("| %s | %s | `%s` | %s |" % (f["property"], f.get("id") or "—", f["signature"],
+                                             re.sub(r"\s+", " ", f["what"])[:420].replace("|", "/")))
+    return "\n".join(rows)
+
+
 def main():
     p = os.path.join(V, "DESIGN.md")
     s = open(p).read()
-    for name, fn in (("seeded", seeded_table), ("theorems", theorem_table)):
+    for name, fn in (("seeded", seeded_table), ("theorems", theorem_table), ("fixed", fixed_table), ("known", known_table)):
         a, b = "<!-- BEGIN:%s -->" % name, "<!-- END:%s -->" % name
         if a in s:
             i, j = s.index(a) + len(a), s.index(b)
